@@ -48,8 +48,9 @@ class _LoopEnv:
       solo and batched runs comparable the proxy shows, in that one situation, the mask the
       environment computes for a finished row next to an unfinished batch-mate.
     * _move_to_next_machine loops until every unfinished row has an open decision point; if a
-      row never gets one the step does not return.  Such rows are handed back un-stepped, not
-      done and with an EMPTY mask: a dead end, which the C02 monitors report.
+      row never gets one the step does not return (and _update_step_state asserts that every
+      unfinished row is offered a job).  Rows for which the step cannot be completed are handed
+      back un-stepped, not done and with an EMPTY mask: a dead end, reported by the C02 monitors.
     """
 
     def __init__(self, env, refresh_final_mask=True):
@@ -62,6 +63,7 @@ class _LoopEnv:
     def reset(self, td=None, batch_size=None):
         out = self._env.reset(td, batch_size=batch_size)
         self._env.tables = _CountingTables(self._env.tables)
+        out["_frozen"] = torch.zeros(out.batch_size[0], dtype=torch.bool)
         return out
 
     def _raw_step(self, td):
@@ -75,28 +77,39 @@ class _LoopEnv:
             tb.limit = None
         if self._refresh and bool(out["done"].all()):
             out = self._env._update_step_state(out)
+        out["_frozen"] = torch.zeros(out.batch_size[0], dtype=torch.bool)
         return out
 
     def step(self, td):
         bak = td.clone()
+        n = td.batch_size[0]
         try:
             return {"next": self._raw_step(td)}
         except _Hang as h:
-            n = td.batch_size[0]
             hung = sorted(set(h.rows))
-            rest = [r for r in range(n) if r not in set(hung)]
-            frozen = bak[torch.tensor(hung)].clone()
-            frozen["action_mask"] = torch.zeros_like(frozen["action_mask"])
-            frozen["done"] = torch.zeros(len(hung), dtype=torch.bool)
-            parts = {r: frozen[k:k + 1] for k, r in enumerate(hung)}
-            if rest:
-                sub = self.step(bak[torch.tensor(rest)].clone())["next"]
-                sub["done"] = sub["done"].reshape(len(rest))
-                for k, r in enumerate(rest):
-                    parts[r] = sub[k:k + 1]
-            keys = [k for k in parts[hung[0]].keys() if all(k in p.keys() for p in parts.values())]
-            out = torch.cat([parts[r].select(*keys) for r in range(n)], 0)
-            return {"next": out}
+        except AssertionError:
+            # FFSPEnv asserts that every unfinished row is offered a job; find the rows
+            hung = []
+            for r in range(n):
+                try:
+                    self._raw_step(bak[r:r + 1].clone())
+                except (_Hang, AssertionError):
+                    hung.append(r)
+            if not hung:
+                raise
+        rest = [r for r in range(n) if r not in set(hung)]
+        frozen = bak[torch.tensor(hung)].clone()
+        frozen["action_mask"] = torch.zeros_like(frozen["action_mask"])
+        frozen["done"] = torch.zeros(len(hung), dtype=torch.bool)
+        frozen["_frozen"] = torch.ones(len(hung), dtype=torch.bool)   # state is NOT the successor
+        parts = {r: frozen[k:k + 1] for k, r in enumerate(hung)}
+        if rest:
+            sub = self.step(bak[torch.tensor(rest)].clone())["next"]
+            sub["done"] = sub["done"].reshape(len(rest))
+            for k, r in enumerate(rest):
+                parts[r] = sub[k:k + 1]
+        keys = [k for k in parts[hung[0]].keys() if all(k in p.keys() for p in parts.values())]
+        return {"next": torch.cat([parts[r].select(*keys) for r in range(n)], 0)}
 
 
 class FFSP(Adapter):
@@ -152,12 +165,26 @@ class FFSP(Adapter):
         return (inst["S"], inst["m"], inst["N"])
 
     def step_bound(self, inst):
-        S, m = inst["S"], inst["m"]
-        hpre = sum(max(r[s * m:(s + 1) * m]) for r in inst["rt"] for s in range(S - 1))
-        return inst["N"] * S + (S - 1) * m * hpre
+        """StepBound of FFSP.tla (operations + sensible waits)"""
+        S, m, J, rt = inst["S"], inst["m"], inst["N"], inst["rt"]
+
+        def pmax(j, s):
+            return max(rt[j][s * m:(s + 1) * m])
+
+        def pmin(j, s):
+            return min(rt[j][s * m:(s + 1) * m])
+
+        latest, waits = 0, 0
+        for s in range(S):
+            if s >= 1:
+                earliest = min(sum(pmin(j, q) for q in range(s)) for j in range(J))
+                waits += m * max(0, latest - earliest)
+            pm = [pmax(j, s) for j in range(J)]
+            latest += (sum(pm) - min(pm)) // m + max(pm)
+        return J * S + waits
 
     def step_cap(self, inst):
-        return self.step_bound(inst) + 2
+        return self.step_bound(inst) + 1
 
     def close_steps(self, inst):
         return 0
@@ -206,7 +233,8 @@ class FFSP(Adapter):
                 "mw": td["machine_wait_step"][r].tolist(),
                 "jl": td["job_location"][r].tolist(),
                 "jw": td["job_wait_step"][r].tolist(),
-                "sched": td["schedule"][r].tolist()}
+                "sched": td["schedule"][r].tolist(),
+                "frozen": bool(td["_frozen"][r]) if "_frozen" in td.keys() else False}
 
     def final(self, td, r, inst):
         c = getattr(self, "_cache", None)
